@@ -143,8 +143,10 @@ impl RrdpServer {
             if f.delta_duplicate && idx_from_newest == 0 { notif.push_str(&format!("  <delta serial=\"{}\" uri=\"{}\" hash=\"{}\"/>\n", d.serial, self.delta_url(d.serial), hash)); }
         }
         if f.notify_broken_xml { notif.push_str("  <snapshot uri="); } else { notif.push_str("</notification>\n"); }
+        // The ETag is derived from the document: equal tags imply byte-identical notifications.
+        let tag = format!("\"{}\"", &sha256_hex(notif.as_bytes())[..20]);
         let mut nreply = match f.notify_status { Some(c) => Reply::status(c), None => Reply::ok(notif.into_bytes()) };
-        if !f.no_etag { nreply.etag = Some(format!("\"v{}-{}\"", self.etag_counter, self.serial)); }
+        if !f.no_etag { nreply.etag = Some(tag); }
         fake.set(&self.notify_url(), nreply);
         let mut sreply = match f.snapshot_status { Some(c) => Reply::status(c), None => Reply::ok(snapshot.clone()) };
         if f.snapshot_truncated { sreply.truncate = Some(snapshot.len() / 2); }
